@@ -98,25 +98,25 @@ type GServer struct {
 }
 
 type GCluster struct {
-	Name          string     `json:"name"`
-	Aliases       []string   `json:"aliases"`
-	DenyAll       bool       `json:"denyAll"`
-	CloseWhenIdle bool       `json:"closeWhenIdle"`
-	Logging       string     `json:"logging"`
-	Token         string     `json:"token"`
-	Policies      []GPolicy  `json:"policies"`
-	Schemas       []GSchema  `json:"schemas"`
-	Servers       []GServer  `json:"servers"`
-	Oracle        GOracle    `json:"oracle"`
+	Name          string    `json:"name"`
+	Aliases       []string  `json:"aliases"`
+	DenyAll       bool      `json:"denyAll"`
+	CloseWhenIdle bool      `json:"closeWhenIdle"`
+	Logging       string    `json:"logging"`
+	Token         string    `json:"token"`
+	Policies      []GPolicy `json:"policies"`
+	Schemas       []GSchema `json:"schemas"`
+	Servers       []GServer `json:"servers"`
+	Oracle        GOracle   `json:"oracle"`
 }
 
 type GOp struct {
 	ID      int      `json:"id"`
 	Kind    string   `json:"kind"` // request | finish | health
 	Req     *ReqSpec `json:"req,omitempty"`
-	Now     int      `json:"now,omitempty"`  // clock reading, in quarter seconds after the base instant
-	Hold    bool     `json:"hold,omitempty"` // the upstream withholds its answer until a finish op
-	K       int      `json:"k,omitempty"`    // finish: id of the held request
+	Now     int      `json:"now,omitempty"`     // clock reading, in quarter seconds after the base instant
+	Hold    bool     `json:"hold,omitempty"`    // the upstream withholds its answer until a finish op
+	K       int      `json:"k,omitempty"`       // finish: id of the held request
 	Cluster int      `json:"cluster,omitempty"` // health: index into Clusters
 	Ep      string   `json:"ep,omitempty"`
 	Healthy bool     `json:"healthy,omitempty"`
@@ -231,8 +231,8 @@ func (p *gwPool) close() {
 // stubs: per-cluster oracles keyed by the cluster WithUpstreamInfo bound the request to
 
 type gwOracles struct {
-	mu      sync.Mutex
-	byName  map[string]GOracle // ClusterInfo.Cluster -> oracle ("" = not bound)
+	mu     sync.Mutex
+	byName map[string]GOracle // ClusterInfo.Cluster -> oracle ("" = not bound)
 }
 
 func boundCluster(ctx context.Context) string {
@@ -909,7 +909,7 @@ type gwVerdict struct {
 func runGatewayCase(c *rig.Ctx, pool *gwPool, cs GCase) gwVerdict {
 	x, err := newGwReal(pool, cs)
 	if err != nil {
-		return gwVerdict{ok: false, kind: "diff", class: "c04.gw.setup", what: "the configuration could not be created on the real code: " + err.Error()}
+		return gwVerdict{ok: false, kind: "diff", class: "compose.diff.setup", what: "the configuration could not be created on the real code: " + err.Error()}
 	}
 	defer x.close()
 	ids := make([]string, len(cs.Ops))
@@ -986,7 +986,7 @@ func runGatewayCase(c *rig.Ctx, pool *gwPool, cs GCase) gwVerdict {
 		return gwVerdict{ok: false, kind: kind, class: class, what: what, impl: impl, model: model, rows: v.rows}
 	}
 	if rig.Canon(m.Install) != rig.Canon(x.install) {
-		return gwVerdict{ok: false, kind: "diff", class: "c04.gw.install", what: fmt.Sprintf("cluster registration: model %v, code %v", m.Install, x.install), impl: x.install, model: m.Install}
+		return gwVerdict{ok: false, kind: "diff", class: "compose.diff.install", what: fmt.Sprintf("cluster registration: model %v, code %v", m.Install, x.install), impl: x.install, model: m.Install}
 	}
 	if len(m.Outs) != pre+len(cs.Ops) {
 		return fail("diff", "c04.model-error", "the model answered a different number of ops", -1)
@@ -997,7 +997,7 @@ func runGatewayCase(c *rig.Ctx, pool *gwPool, cs GCase) gwVerdict {
 		case "finish":
 			wasHeld := gobs[i] != nil
 			if mo.Did != wasHeld {
-				return fail("diff", "c04.gw.finish", fmt.Sprintf("model finished a held request: %v, code: %v", mo.Did, wasHeld), i)
+				return fail("diff", "compose.diff.finish", fmt.Sprintf("model finished a held request: %v, code: %v", mo.Did, wasHeld), i)
 			}
 			if wasHeld {
 				o := gobs[i]
@@ -1032,7 +1032,15 @@ func runGatewayCase(c *rig.Ctx, pool *gwPool, cs GCase) gwVerdict {
 		}
 		// judge first: the property on the real observation
 		if len(mo.Judge) > 0 {
-			return fail("judge", "c04."+mo.Judge[0], "the end-to-end judge rejects the observation: "+strings.Join(mo.Judge, ", "), i)
+			// a verdict of C04's own comes first, then what belongs to other properties
+			cl := gwClass(mo.Judge[0], o)
+			for _, j := range mo.Judge {
+				if k := gwClass(j, o); strings.HasPrefix(k, "c04.") {
+					cl = k
+					break
+				}
+			}
+			return fail("judge", cl, "the end-to-end judge rejects the observation: "+strings.Join(mo.Judge, ", "), i)
 		}
 		if len(mo.SelfJudge) > 0 {
 			return fail("diff", "c04.gw.theorem", "the model's own output fails the judge that is proved of it: "+strings.Join(mo.SelfJudge, ", "), i)
@@ -1040,59 +1048,109 @@ func runGatewayCase(c *rig.Ctx, pool *gwPool, cs GCase) gwVerdict {
 		switch out.Kind {
 		case "forwarded":
 			if o.NUp != 1 {
-				return fail("diff", "c04.gw.diff.forwarded", fmt.Sprintf("the model forwards (to %s), the code answered %d without an upstream", rig.UnHex(out.Endpoint), o.Status), i)
+				return fail("diff", "compose.diff.forwarded", fmt.Sprintf("the model forwards (to %s), the code answered %d without an upstream", rig.UnHex(out.Endpoint), o.Status), i)
 			}
 			if !out.Free && out.Endpoint != o.Endpoint {
-				return fail("diff", "c04.gw.diff.endpoint", fmt.Sprintf("endpoint: model %s, code %s", rig.UnHex(out.Endpoint), rig.UnHex(o.Endpoint)), i)
+				return fail("diff", "compose.diff.endpoint", fmt.Sprintf("endpoint: model %s, code %s", rig.UnHex(out.Endpoint), rig.UnHex(o.Endpoint)), i)
 			}
 			if rig.Canon(mergeHV(out.Identity)) != rig.Canon(o.Identity) {
-				return fail("diff", "c04.gw.diff.identity", "identity-bearing fields differ", i)
+				return fail("diff", "compose.diff.identity", "identity-bearing fields differ", i)
 			}
 			if out.Up != nil {
 				sortHV(out.Up.Headers)
 			}
 			if rig.Canon(out.Up) != rig.Canon(o.Up) {
-				return fail("diff", "c04.gw.diff.up", "the upstream request differs", i)
+				return fail("diff", "compose.diff.up", "the upstream request differs", i)
 			}
 			if !o.Held {
 				if o.Status != 200 || o.XUpstream != rig.UnHex(o.Endpoint) {
 					return fail("judge", "c04.gw.relay", fmt.Sprintf("a forwarded request was answered %d by %q (upstream %s sent 200)", o.Status, o.XUpstream, rig.UnHex(o.Endpoint)), i)
 				}
 				if out.CloseWhenIdle && !o.ConnClose {
-					return fail("diff", "c04.gw.diff.close", "CloseConnectionWhenIdle: the answer does not say Connection: close", i)
+					return fail("diff", "compose.diff.close", "CloseConnectionWhenIdle: the answer does not say Connection: close", i)
 				}
 			}
 			if op.Hold != o.Held {
-				return fail("diff", "c04.gw.diff.hold", "a request that should be held was not (or the reverse)", i)
+				return fail("diff", "compose.diff.hold", "a request that should be held was not (or the reverse)", i)
 			}
 		case "terminated":
 			if o.NUp != 0 || o.Held {
-				return fail("diff", "c04.gw.diff.forwarded", fmt.Sprintf("the model answers %d, the code forwarded to %s", out.Code, rig.UnHex(o.Endpoint)), i)
+				return fail("diff", "compose.diff.forwarded", fmt.Sprintf("the model answers %d, the code forwarded to %s", out.Code, rig.UnHex(o.Endpoint)), i)
 			}
 			if o.Status != out.Code || o.RetryAfter != out.RetryAfter || o.Reason != out.Reason {
-				return fail("diff", "c04.gw.diff.answer", fmt.Sprintf("model %d Retry-After=%d %s, code %d Retry-After=%d %s", out.Code, out.RetryAfter, rig.UnHex(out.Reason), o.Status, o.RetryAfter, rig.UnHex(o.Reason)), i)
+				return fail("diff", "compose.diff.answer", fmt.Sprintf("model %d Retry-After=%d %s, code %d Retry-After=%d %s", out.Code, out.RetryAfter, rig.UnHex(out.Reason), o.Status, o.RetryAfter, rig.UnHex(o.Reason)), i)
 			}
 		case "notProxied":
 			if !o.NotProxied || o.NUp != 0 {
-				return fail("diff", "c04.gw.diff.not-proxied", "an IP-literal Host was not handed to the control-plane handler", i)
+				return fail("diff", "compose.diff.not-proxied", "an IP-literal Host was not handed to the control-plane handler", i)
 			}
 		case "plain":
 			if o.Status != out.Code || o.NUp != 0 {
-				return fail("diff", "c04.gw.diff.answer", fmt.Sprintf("model plain %d, code %d", out.Code, o.Status), i)
+				return fail("diff", "compose.diff.answer", fmt.Sprintf("model plain %d, code %d", out.Code, o.Status), i)
 			}
 		case "badRequest":
 			if o.Status != 400 || o.NUp != 0 {
-				return fail("diff", "c04.gw.diff.answer", fmt.Sprintf("model: net/http refuses the request, code %d", o.Status), i)
+				return fail("diff", "compose.diff.answer", fmt.Sprintf("model: net/http refuses the request, code %d", o.Status), i)
 			}
 		case "proxyError":
 			if o.Status != 502 || o.NUp != 0 {
-				return fail("diff", "c04.gw.diff.answer", fmt.Sprintf("model: transport refuses (502), code %d", o.Status), i)
+				return fail("diff", "compose.diff.answer", fmt.Sprintf("model: transport refuses (502), code %d", o.Status), i)
 			}
 		default:
-			return fail("diff", "c04.gw.model-panic", "the model says the gateway panics: "+out.Msg, i)
+			return fail("diff", "compose.diff.model-panic", "the model says the gateway panics: "+out.Msg, i)
 		}
 	}
 	return v
+}
+
+// gwClass files a failure of the gateway stream under the property that owns it. C04's own business — the fidelity of a
+// forwarded request, the row / Status / Retry-After of a request the gateway answers itself, nothing forwarded when it does —
+// keeps a c04. class (a verdict of this check); everything else is compose.<owner>.<what>: a NOTE here, decided by the
+// owner's own check (./check reports compose.* failures as notes, never as verdicts).
+func gwClass(judge string, o *GObs) string {
+	what := strings.TrimPrefix(judge, "gw.")
+	switch {
+	case strings.HasPrefix(judge, "gw.fidelity."), strings.HasPrefix(judge, "gw.term."), judge == "gw.forward-count",
+		judge == "gw.ip-host-not-handed-over", judge == "gw.forwarded.no-request-info", judge == "gw.forwarded.ip-host",
+		judge == "gw.forwarded.deny-all":
+		return "c04." + judge
+	case judge == "gw.forwarded.unknown-host":
+		return "compose.c10." + what
+	case judge == "gw.forwarded.unauthenticated":
+		return "compose.c12." + what
+	case judge == "gw.forwarded.unapproved-identity", strings.HasPrefix(judge, "gw.identity."):
+		return "compose.c02." + what
+	case judge == "gw.forwarded.no-policy":
+		return "compose.c01." + what
+	case strings.HasPrefix(judge, "gw.endpoint."):
+		return "compose.c03." + what
+	case judge == "gw.admitted-over-limit":
+		return "compose.c05." + what
+	case judge == "gw.admitted-empty-bucket":
+		return "compose.c06." + what
+	case judge == "gw.not-forwarded":
+		// every stage passes by the specifications, yet the gateway answered itself: the answer names the stage that refused
+		owner := "c04"
+		if o != nil {
+			switch o.Status {
+			case 401:
+				owner = "compose.c12"
+			case 403:
+				owner = "compose.c02"
+			case 500:
+				owner = "compose.c01"
+			case 429:
+				owner = "compose.c05"
+			case 503:
+				owner = "compose.c03"
+			}
+		}
+		if owner == "c04" {
+			return "c04." + judge
+		}
+		return fmt.Sprintf("%s.not-forwarded-%d", owner, o.Status)
+	}
+	return "c04." + judge
 }
 
 func describeOp(op GOp) string {
